@@ -53,15 +53,19 @@ def type_infer(t, *, forbid_internal=True):
 
     def union(T1, T2):
         """Join temporary type variable T1 with T2."""
-        # Compute the set of temporary type variables reachable from T2.
-        if is_internal_type(T2):
-            new_reach = reach[int(T2.name[2:])]
-        else:
-            new_reach = set()
-            for T in T2.get_stvars():
-                if is_internal_type(T):
-                    new_reach.add(int(T.name[2:]))
-                    new_reach.update(reach[int(T.name[2:])])
+        # Compute the set of temporary type variables reachable from T2,
+        # following the current bindings (an indirect cycle such as
+        # _t0 := _t1 => 'a, _t1 := _t2 => 'a, _t2 := _t0 => 'a must be found).
+        new_reach = set()
+        def collect(T):
+            for S in ([T] if is_internal_type(T) else T.get_stvars()):
+                if is_internal_type(S):
+                    k = int(S.name[2:])
+                    if k not in new_reach:
+                        new_reach.add(k)
+                        if uf[k] != S:
+                            collect(uf[k])
+        collect(T2)
 
         # Update uf and reach, check for cycles in reach.
         for k, v in uf.items():
